@@ -1152,6 +1152,30 @@ class DiskRefsContainer(RefsContainer):
             # errors depending on the specific operating system
             return None
 
+    def _check_packed_conflict(self, name: Ref) -> None:
+        """Refuse a name that conflicts with a packed ref as directory vs. file.
+
+        Loose refs are kept apart by the file system; a packed ref
+        ``refs/heads/a`` has to keep ``refs/heads/a/b`` from being created (and
+        the other way round) just the same.
+
+        Args:
+          name: The (resolved) name of the ref about to be created
+
+        Raises:
+          NotADirectoryError: if an ancestor of name is a packed ref
+          IsADirectoryError: if there are packed refs below name
+        """
+        packed_refs = self.get_packed_refs()
+        probe_ref = Ref(os.path.dirname(name))
+        while probe_ref:
+            if packed_refs.get(probe_ref, None) is not None:
+                raise NotADirectoryError(self.refpath(name))
+            probe_ref = Ref(os.path.dirname(probe_ref))
+        prefix = name + b"/"
+        if any(ref.startswith(prefix) for ref in packed_refs):
+            raise IsADirectoryError(self.refpath(name))
+
     def _remove_packed_ref(self, name: Ref) -> None:
         if name not in self.get_packed_refs():
             return
@@ -1201,6 +1225,7 @@ class DiskRefsContainer(RefsContainer):
         """
         self._check_refname(name)
         self._check_refname(other)
+        self._check_packed_conflict(name)
         filename = self.refpath(name)
         ensure_dir_exists(os.path.dirname(filename))
         f = GitFile(filename, "wb")
@@ -1261,13 +1286,8 @@ class DiskRefsContainer(RefsContainer):
             realname = name
         filename = self.refpath(realname)
 
-        # make sure none of the ancestor folders is in packed refs
-        probe_ref = Ref(os.path.dirname(realname))
-        packed_refs = self.get_packed_refs()
-        while probe_ref:
-            if packed_refs.get(probe_ref, None) is not None:
-                raise NotADirectoryError(filename)
-            probe_ref = Ref(os.path.dirname(probe_ref))
+        # make sure neither an ancestor folder nor anything below is in packed refs
+        self._check_packed_conflict(realname)
 
         ensure_dir_exists(os.path.dirname(filename))
         with GitFile(filename, "wb") as f:
@@ -1344,6 +1364,7 @@ class DiskRefsContainer(RefsContainer):
         except (KeyError, IndexError):
             realname = name
         self._check_refname(realname)
+        self._check_packed_conflict(realname)
         filename = self.refpath(realname)
         ensure_dir_exists(os.path.dirname(filename))
         with GitFile(filename, "wb") as f:
